@@ -391,7 +391,7 @@ props["C03"] = {
     "assumptions": ["features outside ZCore (monadic blocks, package-dependent arrows, manifest kinds, polymorphism, existentials) are not covered by C03's model; generated programs are fully annotated"],
 }
 props["C03"]["manifest"] = {
-    "text": "On the ZCore fragment the checker's verdict is compared, program by program, with a Lean checker that is stated (and proved, as listed in the evidence) to decide exactly the declared rules: every generated well-typed program must be accepted and every typed mutant rejected with the predicted error class. Type equality under binders (lub.rs's level discipline) is mirrored separately and proved to decide exactly alpha-equivalence for all pairs of types; generated pairs of polymorphic types (renamed, one variable occurrence swapped, one leaf changed) are put where the checker must compare them - directly, under abstract types of an enclosing function, and through a transparent alias seen both as a function's annotation and inside its body.",
+    "text": "On the ZCore fragment the checker's verdict is compared, program by program, with a Lean checker that is stated (and proved, as listed in the evidence) to decide exactly the declared rules: every generated well-typed program must be accepted and every typed mutant rejected with the predicted error class. Type equality under binders (lub.rs's level discipline) is mirrored separately and proved to decide exactly alpha-equivalence for all pairs of types; generated pairs of polymorphic types (renamed, one variable occurrence swapped, one leaf changed) are put where the checker must compare them - directly, under abstract types of an enclosing function, and through a transparent alias seen both as a function's annotation and inside its body. The same mirror covers structural data and codata types (arms looked up by name): proved to decide equivalence up to the order of arms on declarations without repeated names, with generated declaration pairs under ten mutation kinds; probes cover what lies outside both models (labelled products, literal kinds at every primitive type, catch-all arms at sealed types, synthesis positions, existential witnesses).",
     "note": "Trusted: Lean kernel and the three standard axioms; the harness/driver. The correspondence, not a proof, relates the real 8,200-line checker to the model checker.",
     "technique": "Lean declarative typing + sound/complete executable checker + acceptance correspondence on generated programs and typed mutants",
 }
